@@ -450,3 +450,26 @@ pub static VARIANTS: [&dyn Var; 5] = [&VShort, &VNormal, &VNormalLC, &VLong, &VL
 pub fn variant(name: &str) -> &'static dyn Var {
     *VARIANTS.iter().find(|v| v.name() == name).expect("variant name")
 }
+
+// Auto traits are part of the public API: every value type can be moved to and shared between threads,
+// and none of them is pinned.  A change that loses one of these makes this crate (every configuration
+// of the recorder) fail to build, which the checks report as "configuration no longer builds".
+#[allow(dead_code)]
+fn auto_traits() {
+    fn all<T: Send + Sync + Unpin + 'static>() {}
+    all::<tlsh::hashes::Short>();
+    all::<tlsh::hashes::Normal>();
+    all::<tlsh::hashes::NormalWithLongChecksum>();
+    all::<tlsh::hashes::Long>();
+    all::<tlsh::hashes::LongWithLongChecksum>();
+    all::<tlsh::generate::Generator<tlsh::hashes::Short>>();
+    all::<tlsh::generate::Generator<tlsh::hashes::Normal>>();
+    all::<tlsh::generate::Generator<tlsh::hashes::LongWithLongChecksum>>();
+    all::<tlsh::GeneratorOptions>();
+    all::<tlsh::GeneratorError>();
+    all::<tlsh::ParseError>();
+    all::<tlsh::OperationError>();
+    all::<tlsh::length::FuzzyHashLengthEncoding>();
+    all::<tlsh::length::DataLengthValidity>();
+    all::<tlsh::hash::qratios::FuzzyHashQRatios>();
+}
